@@ -462,6 +462,7 @@ func lowerInstr(ins ssa.Instruction) J {
 		o["op"] = "store"
 		o["addr"] = operand(x.Addr)
 		o["val"] = operand(x.Val)
+		o["vt"] = typeID(x.Val.Type())
 	case *ssa.TypeAssert:
 		o["op"] = "typeassert"
 		o["x"] = operand(x.X)
